@@ -30,6 +30,12 @@ def gen(rng, i):
         pool.append([hx(-0.03125, sc)] * P)
     if c["meta"]["family"] in ("exp3", "shared", "cosmix"):
         pool.append([hx(-30.0, sc)] * P)
+    if P >= 2 and i % 3 == 0:
+        # a vector with ONE non-finite component (NaN / +-inf), the others ordinary: it is what it is — no residuals for NaN, the
+        # genuine limit values for infinity — and must not borrow anything from the parameters held before
+        bad = list(rng.choice(pool[:4]))
+        bad[rng.randrange(P)] = hx(rng.choice([float("nan"), float("inf"), float("-inf")]), sc)
+        pool.append(bad)
     ops = []
     refs = []
     nsteps = rng.randint(4, 10)
